@@ -200,8 +200,25 @@ pub fn clip(s: &str, n: usize) -> String {
     }
 }
 
+thread_local! {
+    static IN_SUBJECT: std::cell::Cell<bool> = const { std::cell::Cell::new(false) };
+}
+
+/// Panics of the subject (caught and turned into outcomes) stay quiet; a panic of the
+/// machinery itself is printed, since it is never a verdict.
 pub fn install_quiet_panic_hook() {
-    std::panic::set_hook(Box::new(|_| {}));
+    std::panic::set_hook(Box::new(|info| {
+        if !IN_SUBJECT.with(|f| f.get()) {
+            eprintln!("MACHINERY-ERROR: checker panicked: {info}");
+        }
+    }));
+}
+
+fn in_subject<T>(f: impl FnOnce() -> T) -> T {
+    IN_SUBJECT.with(|s| s.set(true));
+    let r = f();
+    IN_SUBJECT.with(|s| s.set(false));
+    r
 }
 
 fn panic_msg(e: Box<dyn std::any::Any + Send>) -> String {
@@ -217,11 +234,13 @@ fn panic_msg(e: Box<dyn std::any::Any + Send>) -> String {
 /// Run `transform_stream` on bytes with a config (the real entry point).
 pub fn run_bytes(input: &[u8], cfg: &Cfg) -> Outcome {
     let tc = cfg.to_tc();
-    let r = catch_unwind(AssertUnwindSafe(|| {
-        let mut rd = std::io::Cursor::new(input);
-        let mut out = Vec::new();
-        svgdx::transform_stream(&mut rd, &mut out, &tc).map(|_| out)
-    }));
+    let r = in_subject(|| {
+        catch_unwind(AssertUnwindSafe(|| {
+            let mut rd = std::io::Cursor::new(input);
+            let mut out = Vec::new();
+            svgdx::transform_stream(&mut rd, &mut out, &tc).map(|_| out)
+        }))
+    });
     match r {
         Ok(Ok(b)) => Outcome::Ok(b),
         Ok(Err(e)) => Outcome::Err(e.to_string()),
@@ -231,7 +250,7 @@ pub fn run_bytes(input: &[u8], cfg: &Cfg) -> Outcome {
 
 pub fn run_str(input: &str, cfg: &Cfg) -> Outcome {
     let tc = cfg.to_tc();
-    let r = catch_unwind(AssertUnwindSafe(|| svgdx::transform_str(input, &tc)));
+    let r = in_subject(|| catch_unwind(AssertUnwindSafe(|| svgdx::transform_str(input, &tc))));
     match r {
         Ok(Ok(b)) => Outcome::Ok(b.into_bytes()),
         Ok(Err(e)) => Outcome::Err(e.to_string()),
@@ -241,7 +260,7 @@ pub fn run_str(input: &str, cfg: &Cfg) -> Outcome {
 
 pub fn run_probe(input: &[u8], cfg: &Cfg) -> (Outcome, Option<svgdx::verif::Probe>) {
     let tc = cfg.to_tc();
-    let r = catch_unwind(AssertUnwindSafe(|| svgdx::verif::transform_probe(input, &tc)));
+    let r = in_subject(|| catch_unwind(AssertUnwindSafe(|| svgdx::verif::transform_probe(input, &tc))));
     match r {
         Ok((Ok(b), p)) => (Outcome::Ok(b), Some(p)),
         Ok((Err(e), p)) => (Outcome::Err(e.to_string()), Some(p)),
